@@ -39,11 +39,15 @@ func vCoreTables() []vTable {
 		/* 25 */ {services: []vService{{root: "/a", routes: []vRoute{g("/b")}}, {root: "/", routes: []vRoute{g("/{v}/b")}}}},
 		/* 26 */ one("/t", g("/a/{x}"), g("/{y}/b")),
 		/* 27 */ one("/t", g("/abc/{x}"), g("/{y}/d")),
+		/* 28 */ one("/t", g("/a.x"), g("/{v}.x")),
+		/* 29 */ one("/a/", g("/"), g("/b")),
+		/* 30 */ one("/t", g("/a b/{v}"), g("/c,d")),
+		/* 31 */ one("/t", g("/a/b"), g("/a/{v:[a-z]+}")),
 	}
 }
 
 // tables that use template forms only CurlyRouter documents
-func vCurlyOnly(tbl int) bool { return tbl == 2 || tbl == 3 || tbl == 6 || tbl == 18 || tbl == 22 }
+func vCurlyOnly(tbl int) bool { return tbl == 2 || tbl == 3 || tbl == 6 || tbl == 18 || tbl == 22 || tbl == 28 }
 
 func vTableFor(tbl int) vTable {
 	if tbl >= 1000 {
